@@ -146,12 +146,12 @@ theorem rpcBody_close (F l : Nat) (more : List PTok) : rpcBody (F + 1) (T (.sym 
 theorem serviceBody_rpc (F : Nat) (name : String) (sI aI : Bool) (fI : String) (rI : List String) (sO aO : Bool)
     (fO : String) (rO : List String) (l : Nat) (more : List PTok) (os : List RawOpt) (ms : List Item)
     (hfI : IsIdent fI) (hfO : IsIdent fO)
-    (hkI : sI = false → aI = false → fI ≠ "stream") (hkO : sO = false → aO = false → fO ≠ "stream") :
-    serviceBody (F + 2) (rpcToks name sI aI fI rI sO aO fO rO l ++ more) os ms =
+    (hkI : sI = false → aI = false → fI ≠ "stream") (hkO : sO = false → aO = false → fO ≠ "stream") (c : String) :
+    serviceBody (F + 2) (hd c (rpcToks name sI aI fI rI sO aO fO rO l) ++ more) os ms =
       serviceBody (F + 1) more os
-        (ms ++ [.rpc (lineLoc l l) 0 name (rpcTyStr sI aI fI rI) (rpcTyStr sO aO fO rO) []]) := by
+        (ms ++ [.rpc ((lineLoc l l).withLead c) 0 name (rpcTyStr sI aI fI rI) (rpcTyStr sO aO fO rO) []]) := by
   unfold rpcToks
-  simp only [List.cons_append, List.append_assoc, List.nil_append]
+  simp only [List.cons_append, List.append_assoc, List.nil_append, hd_T]
   have h1 := rpcType_toks sI aI fI rI l
     (T (.ident "returns") l :: T (.sym '(') l :: (rpcTyToks sO aO fO rO l ++
       (T (.sym ')') l :: T (.sym '{') l :: T (.sym '}') l :: more))) hfI hkI
@@ -164,7 +164,7 @@ theorem serviceBody_rpc (F : Nat) (name : String) (sI aI : Bool) (fI : String) (
   have := rpcBody_close F l more
   simp only [T] at this
   rw [this]
-  simp [mkLoc, Cm.none, trailOf, mkOpts, groupOpts, unlocateShared, lineLoc]
+  simp [mkLoc, Cm.none, leadCm, Loc.withLead, trailOf, mkOpts, groupOpts, unlocateShared, lineLoc]
 
 
 theorem rpcBody_close' (F l : Nat) (more : List PTok) (os : List RawOpt) :
@@ -193,12 +193,12 @@ theorem serviceBody_rpcOpen (F : Nat) (name : String) (sI aI : Bool) (fI : Strin
     (fO : String) (rO : List String) (l : Nat) (r3 : List PTok) (os : List RawOpt) (ms : List Item)
     (hfI : IsIdent fI) (hfO : IsIdent fO)
     (hkI : sI = false → aI = false → fI ≠ "stream") (hkO : sO = false → aO = false → fO ≠ "stream")
-    (ros : List RawOpt) (le : Nat) (r4 : List PTok) (hb : rpcBody (F + 1) r3 [] = some (ros, le, r4)) :
-    serviceBody (F + 2) (rpcOpenToks name sI aI fI rI sO aO fO rO l ++ r3) os ms =
+    (ros : List RawOpt) (le : Nat) (r4 : List PTok) (hb : rpcBody (F + 1) r3 [] = some (ros, le, r4)) (c : String) :
+    serviceBody (F + 2) (hd c (rpcOpenToks name sI aI fI rI sO aO fO rO l) ++ r3) os ms =
       serviceBody (F + 1) r4 os
-        (ms ++ [.rpc (mkLoc l le Cm.none (trailOf r3)) 0 name (rpcTyStr sI aI fI rI) (rpcTyStr sO aO fO rO) (mkOpts l ros)]) := by
+        (ms ++ [.rpc (mkLoc l le (leadCm c) (trailOf r3)) 0 name (rpcTyStr sI aI fI rI) (rpcTyStr sO aO fO rO) (mkOpts l ros)]) := by
   unfold rpcOpenToks
-  simp only [List.cons_append, List.append_assoc, List.nil_append]
+  simp only [List.cons_append, List.append_assoc, List.nil_append, hd_T]
   have h1 := rpcType_toks sI aI fI rI l
     (T (.ident "returns") l :: T (.sym '(') l :: (rpcTyToks sO aO fO rO l ++
       (T (.sym ')') l :: T (.sym '{') l :: r3))) hfI hkI
@@ -212,10 +212,10 @@ theorem serviceBody_rpcOpen (F : Nat) (name : String) (sI aI : Bool) (fI : Strin
 
 /-! ## services in the files of the theorem -/
 
-/-- a method without comments (statement options allowed) -/
+/-- a method (statement options allowed; a leading comment allowed, asked `CommentOk` by the list) -/
 def SimpleRpc : Item → Prop
   | .rpc l _ name inT outT os =>
-    l.noComments ∧ RpcOpts os ∧ IsIdent name ∧
+    l.leadOnly ∧ RpcOpts os ∧ IsIdent name ∧
     (∃ (st abs : Bool) (first : String) (rest : List String), IsIdent first ∧ (∀ r ∈ rest, IsIdent r) ∧
       inT = rpcTyStr st abs first rest ∧ (st = false → abs = false → first ≠ "stream")) ∧
     (∃ (st abs : Bool) (first : String) (rest : List String), IsIdent first ∧ (∀ r ∈ rest, IsIdent r) ∧
@@ -224,11 +224,11 @@ def SimpleRpc : Item → Prop
 
 def SimpleRpcs : List Item → Prop
   | [] => True
-  | e :: r => SimpleRpc e ∧ SimpleRpcs r
+  | e :: r => SimpleRpc e ∧ CommentOk e.loc.leading ∧ SimpleRpcs r
 
 /-- a service without comments (statement options allowed, methods without options) -/
 def SimpleService : Item → Prop
-  | .block kw t l _ name os ks => l.noComments ∧ BlockOpts os ∧ IsIdent name ∧ kw = "service" ∧ t = 0 ∧ SimpleRpcs ks
+  | .block kw t l _ name os ks => l.leadOnly ∧ BlockOpts os ∧ IsIdent name ∧ kw = "service" ∧ t = 0 ∧ SimpleRpcs ks
   | _ => False
 
 theorem SimpleRpc.plain : ∀ e, SimpleRpc e → Plain e
@@ -238,7 +238,7 @@ theorem SimpleRpc.plain : ∀ e, SimpleRpc e → Plain e
 
 theorem SimpleRpcs.plain : ∀ es, SimpleRpcs es → PlainList es
   | [], _ => trivial
-  | e :: r, h => ⟨SimpleRpc.plain e h.1, SimpleRpcs.plain r h.2⟩
+  | e :: r, h => ⟨SimpleRpc.plain e h.1, h.2.1, SimpleRpcs.plain r h.2.2⟩
 
 theorem SimpleService.plain : ∀ e, SimpleService e → Plain e
   | .block _ _ _ _ _ _ ks, h => ⟨h.1, h.2.1, SimpleRpcs.plain ks h.2.2.2.2.2⟩
@@ -281,16 +281,17 @@ theorem mkOpts_rpc (os : List SOpt) (s : Nat) :
 
 theorem sb_rpcs : ∀ (es : List Item), SimpleRpcs es → ∀ (n : Nat) (first : Bool) (le0 lt L : Nat) (g : Bool) (F : Nat)
     (os : List RawOpt) (ms : List Item) (rest : List PTok), trailOf rest = "" → (∀ e ∈ es, need1 e ≤ F) →
-    serviceBody ((F + 1) + es.length) (toksOf (elemsCmds n es first le0 lt) g L ++ rest) os ms =
+    serviceBody ((F + 1) + es.length) (kT n es first le0 lt g L ++ rest) os ms =
       serviceBody (F + 1) rest os (ms ++ (rdKids es first le0 lt L g).1)
-  | [], _, n, first, le0, lt, L, g, F, os, ms, rest, _, _ => by simp [elemsCmds, toksOf_nil, rdKids]
+  | [], _, n, first, le0, lt, L, g, F, os, ms, rest, _, _ => by simp [kT_nil, rdKids]
   | .rpc l i name inT outT opts :: r, h, n, first, le0, lt, L, g, F, os, ms, rest, hrest, hF => by
-    obtain ⟨⟨hl, ho, hname, ⟨sI, aI, fI, rI, hfI, hrI, hin, hkI⟩, ⟨sO, aO, fO, rO, hfO, hrO, hout, hkO⟩⟩, hr⟩ := h
+    obtain ⟨⟨hl, ho, hname, ⟨sI, aI, fI, rI, hfI, hrI, hin, hkI⟩, ⟨sO, aO, fO, rO, hfO, hrO, hout, hkO⟩⟩, hcm, hr⟩ := h
     subst hin hout
     have hF' : ∀ e ∈ r, need1 e ≤ F := fun e he => hF e (by simp [he])
     have hF0 := hF _ (List.mem_cons_self)
     simp only [need1] at hF0
-    rw [toksOf_elems_cons n (Item.rpc l i name (rpcTyStr sI aI fI rI) (rpcTyStr sO aO fO rO) opts) r first le0 lt g L ⟨hl, ho⟩]
+    rw [kT_cons, rdKids_cons]
+    generalize kidS (Item.rpc l i name (rpcTyStr sI aI fI rI) (rpcTyStr sO aO fO rO) opts) first le0 lt L g = st
     by_cases hemp : opts.isEmpty = true
     · have hnil : opts = [] := by simpa using hemp
       subst hnil
@@ -300,34 +301,34 @@ theorem sb_rpcs : ∀ (es : List Item), SimpleRpcs es → ∀ (n : Nat) (first :
       rw [e, serviceBody_rpc (F + r.length) name sI aI fI rI sO aO fO rO _ _ os ms hfI hfO hkI hkO]
       have e2 : F + r.length + 1 = (F + 1) + r.length := by omega
       rw [e2, sb_rpcs r hr n false _ _ _ _ F os _ rest hrest hF']
-      simp only [rdKids, rdItem, List.isEmpty_nil, if_true, List.append_assoc, List.cons_append, List.nil_append, startLine,
-        gapBefore, Item.typeOrder, Item.gapEnder]
-      rfl
+      simp only [rdItem, List.isEmpty_nil, if_true, List.append_assoc, List.cons_append, List.nil_append,
+        Item.withLead, Item.loc]
     · have hne : opts.isEmpty = false := by simpa using hemp
       simp only [itemToks, hne, Bool.false_eq_true, if_false, List.length_cons, List.append_assoc]
       rw [lineToks_rpcOpen n name sI aI fI rI sO aO fO rO _ hname hfI hrI hfO hrO, lineToks_close]
-      simp only [List.cons_append, List.nil_append]
       have e : F + 1 + (r.length + 1) = (F + r.length) + 2 := by omega
       obtain ⟨F1, hF1⟩ : ∃ F1, F + r.length + 1 = (F1 + 1) + (rpcChunks opts).length :=
         ⟨F + r.length - (rpcChunks opts).length, by omega⟩
-      have hb0 := rb_opts (startLine (g || gapBefore first le0 lt (Item.rpc l i name (rpcTyStr sI aI fI rI) (rpcTyStr sO aO fO rO) opts)) L)
-        (rpcChunks opts) ho.chunks (F1 + 1)
-        (T (.sym '}') ((startLine (g || gapBefore first le0 lt (Item.rpc l i name (rpcTyStr sI aI fI rI) (rpcTyStr sO aO fO rO) opts)) L) + 1 + rpcSpan opts) ::
-          (toksOf (elemsCmds n r false (Item.rpc l i name (rpcTyStr sI aI fI rI) (rpcTyStr sO aO fO rO) opts).loc.endLine (Item.rpc l i name (rpcTyStr sI aI fI rI) (rpcTyStr sO aO fO rO) opts).typeOrder) (Item.rpc l i name (rpcTyStr sI aI fI rI) (rpcTyStr sO aO fO rO) opts).gapEnder (rdItem (Item.rpc l i name (rpcTyStr sI aI fI rI) (rpcTyStr sO aO fO rO) opts) (startLine (g || gapBefore first le0 lt (Item.rpc l i name (rpcTyStr sI aI fI rI) (rpcTyStr sO aO fO rO) opts)) L)).2 ++ rest)) []
+      generalize hmore : kT n r false (Item.rpc l i name (rpcTyStr sI aI fI rI) (rpcTyStr sO aO fO rO) opts).loc.endLine
+        (Item.rpc l i name (rpcTyStr sI aI fI rI) (rpcTyStr sO aO fO rO) opts).typeOrder
+        (Item.rpc l i name (rpcTyStr sI aI fI rI) (rpcTyStr sO aO fO rO) opts).gapEnder
+        (rdItem (Item.rpc l i name (rpcTyStr sI aI fI rI) (rpcTyStr sO aO fO rO) opts) st).2 ++ rest = more
+      have hmoreT : trailOf more = "" := by rw [← hmore]; exact trailOf_kT _ _ _ _ _ _ _ _ hrest
+      have hb0 := rb_opts st (rpcChunks opts) ho.chunks (F1 + 1) (T (.sym '}') (st + 1 + rpcSpan opts) :: more) []
       rw [ho.whole, rpcBody_close', ← hF1] at hb0
-      rw [e, serviceBody_rpcOpen (F + r.length) name sI aI fI rI sO aO fO rO _ _ os ms hfI hfO hkI hkO _ _ _ hb0]
+      have hassoc : hd (Item.rpc l i name (rpcTyStr sI aI fI rI) (rpcTyStr sO aO fO rO) opts).loc.leading
+            (rpcOpenToks name sI aI fI rI sO aO fO rO st ++ (sh st (rpcToks0 opts) ++ [T (Tok.sym '}') (st + 1 + rpcSpan opts)])) ++ more =
+          hd (Item.rpc l i name (rpcTyStr sI aI fI rI) (rpcTyStr sO aO fO rO) opts).loc.leading
+            (rpcOpenToks name sI aI fI rI sO aO fO rO st) ++ (sh st (rpcToks0 opts) ++ T (Tok.sym '}') (st + 1 + rpcSpan opts) :: more) := by
+        simp [rpcOpenToks, hd_T, List.append_assoc]
+      rw [hassoc, e, serviceBody_rpcOpen (F + r.length) name sI aI fI rI sO aO fO rO _ _ os ms hfI hfO hkI hkO _ _ _ hb0]
       have e2 : F + r.length + 1 = (F + 1) + r.length := by omega
-      rw [e2, sb_rpcs r hr n false _ _ _ _ F os _ rest hrest hF']
-      have htr := trailOf_rpcOpts opts (startLine (g || gapBefore first le0 lt (Item.rpc l i name (rpcTyStr sI aI fI rI) (rpcTyStr sO aO fO rO) opts)) L)
-        (T (.sym '}') (startLine (g || gapBefore first le0 lt (Item.rpc l i name (rpcTyStr sI aI fI rI) (rpcTyStr sO aO fO rO) opts)) L + 1 + rpcSpan opts) ::
-          (toksOf (elemsCmds n r false (Item.rpc l i name (rpcTyStr sI aI fI rI) (rpcTyStr sO aO fO rO) opts).loc.endLine
-            (Item.rpc l i name (rpcTyStr sI aI fI rI) (rpcTyStr sO aO fO rO) opts).typeOrder) (Item.rpc l i name (rpcTyStr sI aI fI rI) (rpcTyStr sO aO fO rO) opts).gapEnder
-            (rdItem (Item.rpc l i name (rpcTyStr sI aI fI rI) (rpcTyStr sO aO fO rO) opts)
-              (startLine (g || gapBefore first le0 lt (Item.rpc l i name (rpcTyStr sI aI fI rI) (rpcTyStr sO aO fO rO) opts)) L)).2 ++ rest)) rfl
-      simp only [List.nil_append, htr, mkLoc_plain, mkOpts_rpc]
-      simp only [rdKids, rdItem, hne, Bool.false_eq_true, if_false, List.append_assoc, List.cons_append, List.nil_append, startLine,
-        gapBefore, Item.typeOrder, Item.gapEnder]
-      rfl
+      rw [← hmore, e2, sb_rpcs r hr n false _ _ _ _ F os _ rest hrest hF']
+      have htr := trailOf_rpcOpts opts st (T (.sym '}') (st + 1 + rpcSpan opts) :: more) rfl
+      rw [hmore]
+      simp only [List.nil_append, htr, mkLoc_leadPlain, mkOpts_rpc]
+      simp only [rdItem, hne, Bool.false_eq_true, if_false, List.append_assoc, List.cons_append, List.nil_append,
+        Item.typeOrder, Item.gapEnder, Item.withLead, Item.loc]
   | .field _ :: _, h, _, _, _, _, _, _, _, _, _, _, _, _ => h.1.elim
   | .block _ _ _ _ _ _ _ :: _, h, _, _, _, _, _, _, _, _, _, _, _, _ => h.1.elim
 
@@ -344,11 +345,9 @@ theorem noCh_rpcTyStr (st abs : Bool) (first : String) (rest : List String) (hf 
   · exact noCh_lit hx "" (by simp)
   · exact noCh_lit hx "stream " (by simp)
 
-theorem simpleRpcs_noCh : ∀ (es : List Item) (n : Nat) (first : Bool) (le0 lt : Nat), SimpleRpcs es →
-    CmdsNoCh x (elemsCmds n es first le0 lt)
-  | [], _, _, _, _, _ => by intro c hc; simp [elemsCmds] at hc
-  | .rpc l i name inT outT opts :: r, n, first, le0, lt, h => by
-    obtain ⟨⟨hl, ho, hname, ⟨sI, aI, fI, rI, hfI, hrI, hin, _⟩, ⟨sO, aO, fO, rO, hfO, hrO, hout, _⟩⟩, hr⟩ := h
+theorem simpleRpc_own : ∀ (e : Item) (n : Nat), SimpleRpc e → CmdsNoCh x (ownCmds n e)
+  | .rpc l i name inT outT opts, n, h => by
+    obtain ⟨hl, ho, hname, ⟨sI, aI, fI, rI, hfI, hrI, hin, _⟩, ⟨sO, aO, fO, rO, hfO, hrO, hout, _⟩⟩ := h
     subst hin hout
     have hhead : ∀ tail : String, tail ∈ [" {}", " {"] → NoCh x (ind n ("rpc " ++ name ++ "(" ++ rpcTyStr sI aI fI rI ++
         ") returns (" ++ rpcTyStr sO aO fO rO ++ ")" ++ tail ++ "")).toList := by
@@ -365,8 +364,7 @@ theorem simpleRpcs_noCh : ∀ (es : List Item) (n : Nat) (first : Bool) (le0 lt 
         (noCh_rpcTyStr hx sI aI fI rI hfI hrI)) (noCh_lit hx ") returns (" (by simp)))
         (noCh_rpcTyStr hx sO aO fO rO hfO hrO)) (noCh_lit hx ")" (by simp))) htail)
         (noCh_lit hx "" (by simp))
-    rw [elemsCmds_cons_unloc n (Item.rpc l i name (rpcTyStr sI aI fI rI) (rpcTyStr sO aO fO rO) opts) r first le0 lt]
-    refine CmdsNoCh.append (CmdsNoCh.append (cmdsNoCh_gapIf x _) ?_) (simpleRpcs_noCh r n false _ _ hr)
+    simp only [ownCmds]
     by_cases hemp : opts.isEmpty = true
     · have hnil : opts = [] := by simpa using hemp
       subst hnil
@@ -397,29 +395,14 @@ theorem simpleRpcs_noCh : ∀ (es : List Item) (n : Nat) (first : Bool) (le0 lt 
         intro ch hch hcx
         exact this.1 ch hch (hcx.trans h2)
       · exact Or.inr ⟨h2, tokLine_ind_of_ok _ ln this.2⟩
-  | .field _ :: _, _, _, _, _, h => h.1.elim
-  | .block _ _ _ _ _ _ _ :: _, _, _, _, _, h => h.1.elim
+  | .field _, _, h => h.elim
+  | .block _ _ _ _ _ _ _, _, h => h.elim
 
-theorem simpleService_noCh : ∀ (e : Item) (n : Nat), SimpleService e → CmdsNoCh x (itemCmds n e)
+theorem simpleService_own : ∀ (e : Item) (n : Nat), SimpleService e → CmdsNoCh x (ownCmds n e)
   | .block kw t l i name os kids, n, h => by
     obtain ⟨hl, ho, hname, hkw, _, hk⟩ := h
     subst hkw
-    rw [blockCmds_opts n "service" t l i name os kids hl]
-    have hkids := simpleRpcs_noCh hx kids (n + 1) true 0 0 hk
-    apply CmdsNoCh.append _ (cmdsNoCh_gap x)
-    split
-    · apply cmdsNoCh_line
-      apply noCh_ind hx
-      simp only [String.toList_append]
-      exact NoCh.append hx (NoCh.append hx (NoCh.append hx (noCh_lit hx "service" (by simp)) (noCh_lit hx " " (by simp)))
-        (noCh_ident hx hname)) (noCh_lit hx " {}" (by simp))
-    · refine CmdsNoCh.append ?_ (CmdsNoCh.append (optCmds_noCh hx n os ho)
-        (CmdsNoCh.append hkids (cmdsNoCh_endl x _ (noCh_ind hx n "}" (noCh_lit hx "}" (by simp))))))
-      apply cmdsNoCh_line
-      apply noCh_ind hx
-      simp only [String.toList_append]
-      exact NoCh.append hx (NoCh.append hx (NoCh.append hx (NoCh.append hx (noCh_lit hx "service" (by simp))
-        (noCh_lit hx " " (by simp))) (noCh_ident hx hname)) (noCh_lit hx " {" (by simp))) (noCh_lit hx "" (by simp))
+    exact block_own hx n "service" t l i name os kids (noCh_lit hx "service" (by simp)) hname ho
   | .field _, _, h => h.elim
   | .rpc _ _ _ _ _ _, _, h => h.elim
 
@@ -428,11 +411,11 @@ end
 
 /-! ## the top level: messages, enums and services -/
 
-theorem topLevel_service_step (F : Nat) (name : String) (s : Nat) (r : List PTok) (a : Acc) :
-    topLevel (F + 1) (T (.ident "service") s :: T (.ident name) s :: T (.sym '{') s :: r) a =
+theorem topLevel_service_step (F : Nat) (name : String) (s : Nat) (cm : Cm) (r : List PTok) (a : Acc) :
+    topLevel (F + 1) (⟨.ident "service", s, cm⟩ :: T (.ident name) s :: T (.sym '{') s :: r) a =
       match serviceBody F r [] [] with
       | some (sos, ms, le, r') =>
-        topLevel F r' { a with items := a.items ++ [.block "service" 0 (mkLoc s le Cm.none (trailOf r)) 0 name (mkOpts s sos) ms] }
+        topLevel F r' { a with items := a.items ++ [.block "service" 0 (mkLoc s le cm (trailOf r)) 0 name (mkOpts s sos) ms] }
       | none => none := by
   simp only [T]
   rw [topLevel]
@@ -447,52 +430,55 @@ theorem need1_le_needAll (e : Item) : ∀ (es : List Item), e ∈ es → need1 e
     · have := need1_le_needAll e r h
       omega
 
-theorem top_service : ∀ (e : Item), SimpleService e → ∀ (s G : Nat) (a : Acc) (more : List PTok),
+theorem top_service : ∀ (e : Item), SimpleService e → ∀ (s G : Nat) (c : String) (a : Acc) (more : List PTok),
     trailOf more = "" → need1 e ≤ G →
-    topLevel (G + 1) (itemToks 0 e s ++ more) a = topLevel G more { a with items := a.items ++ [(rdItem e s).1] }
-  | .field _, h, _, _, _, _, _, _ => h.elim
-  | .rpc _ _ _ _ _ _, h, _, _, _, _, _, _ => h.elim
-  | .block kw t l i name opts kids, h, s, G, a, more, hm, hG => by
+    topLevel (G + 1) (hd c (itemToks 0 e s) ++ more) a =
+      topLevel G more { a with items := a.items ++ [(rdItem e s).1.withLead c] }
+  | .field _, h, _, _, _, _, _, _, _ => h.elim
+  | .rpc _ _ _ _ _ _, h, _, _, _, _, _, _, _ => h.elim
+  | .block kw t l i name opts kids, h, s, G, c, a, more, hm, hG => by
     obtain ⟨hl, ho, hname, hkw, ht, hk⟩ := h
     subst hkw ht
     simp only [need1] at hG
-    have htr : trailOf (sh s (optToks0 opts) ++ (toksOf (elemsCmds (0 + 1) kids true 0 0) (!opts.isEmpty) (s + 1 + optSpan opts) ++
+    have htr : trailOf (sh s (optToks0 opts) ++ (kT (0 + 1) kids true 0 0 (!opts.isEmpty) (s + 1 + optSpan opts) ++
         T (.sym '}') (rdKids kids true 0 0 (s + 1 + optSpan opts) (!opts.isEmpty)).2 :: more)) = "" :=
-      trailOf_opts _ _ _ (trailOf_toksOf _ _ _ _ rfl)
+      trailOf_opts _ _ _ (trailOf_kT _ _ _ _ _ _ _ _ rfl)
     have htr0 : trailOf (T (.sym '}') s :: more) = "" := rfl
     by_cases hempty : (kids.isEmpty && opts.isEmpty) = true
     · simp only [Bool.and_eq_true, List.isEmpty_iff] at hempty
       obtain ⟨rfl, rfl⟩ := hempty
       simp only [itemToks, rdItem, List.isEmpty_nil, Bool.and_self, if_true]
       rw [lineToks_empty 0 "service" name s isIdent_service hname]
-      simp only [List.cons_append, List.nil_append]
+      simp only [List.cons_append, List.nil_append, hd_T]
       rw [topLevel_service_step]
       obtain ⟨G', rfl⟩ : ∃ G', G = G' + 1 := ⟨G - 1, by omega⟩
       rw [serviceBody_close]
-      simp only [mkOpts, groupOpts, unlocateShared, List.map_nil, htr0, mkLoc_plain]
+      simp only [mkOpts, groupOpts, unlocateShared, List.map_nil, htr0, mkLoc_leadPlain]
+      rfl
     · have hne : (kids.isEmpty && opts.isEmpty) = false := by simpa using hempty
       simp only [itemToks, rdItem, hne, Bool.false_eq_true, if_false]
       rw [lineToks_open 0 "service" name s isIdent_service hname, lineToks_close]
-      simp only [List.cons_append, List.nil_append, List.append_assoc]
+      simp only [List.cons_append, List.nil_append, List.append_assoc, hd_T]
       rw [topLevel_service_step]
       obtain ⟨F', hGe⟩ : ∃ F', G = ((F' + 1) + kids.length) + (optChunks opts).length :=
         ⟨G - kids.length - (optChunks opts).length - 1, by omega⟩
       have hopts := sb_opts s (optChunks opts) ho.chunks ((F' + 1) + kids.length)
-        (toksOf (elemsCmds (0 + 1) kids true 0 0) (!opts.isEmpty) (s + 1 + optSpan opts) ++
+        (kT (0 + 1) kids true 0 0 (!opts.isEmpty) (s + 1 + optSpan opts) ++
           T (.sym '}') (rdKids kids true 0 0 (s + 1 + optSpan opts) (!opts.isEmpty)).2 :: more) [] []
       rw [ho.whole] at hopts
       rw [hGe, hopts, sb_rpcs kids hk 1 true 0 0 (s + 1 + optSpan opts) (!opts.isEmpty) F' _ [] _ rfl
         (fun e he => by have := need1_le_needAll e kids he; omega), serviceBody_close]
       have hmk := mkOpts_block opts s
       unfold optRaws0 at hmk
-      simp only [List.nil_append, htr, mkLoc_plain, hmk]
+      simp only [List.nil_append, htr, mkLoc_leadPlain, hmk]
+      rfl
 
 /-- what a file holds at its top level -/
 def SimpleTop (e : Item) : Prop := (SimpleItem e ∧ IsBlock e) ∨ SimpleService e
 
 def SimpleTops : List Item → Prop
   | [] => True
-  | e :: r => SimpleTop e ∧ SimpleTops r
+  | e :: r => SimpleTop e ∧ CommentOk e.loc.leading ∧ SimpleTops r
 
 theorem SimpleTop.plain (e : Item) (h : SimpleTop e) : Plain e := by
   rcases h with h | h
@@ -501,42 +487,29 @@ theorem SimpleTop.plain (e : Item) (h : SimpleTop e) : Plain e := by
 
 theorem SimpleTops.plain : ∀ es, SimpleTops es → PlainList es
   | [], _ => trivial
-  | e :: r, h => ⟨SimpleTop.plain e h.1, SimpleTops.plain r h.2⟩
+  | e :: r, h => ⟨SimpleTop.plain e h.1, h.2.1, SimpleTops.plain r h.2.2⟩
 
 theorem top_tops : ∀ (es : List Item), SimpleTops es →
     ∀ (first : Bool) (le0 lt L : Nat) (g : Bool) (F : Nat) (a : Acc) (rest : List PTok), trailOf rest = "" → needAll es ≤ F →
-    topLevel (F + es.length) (toksOf (elemsCmds 0 es first le0 lt) g L ++ rest) a =
+    topLevel (F + es.length) (kT 0 es first le0 lt g L ++ rest) a =
       topLevel F rest { a with items := a.items ++ (rdKids es first le0 lt L g).1 }
   | [], _, first, le0, lt, L, g, F, a, rest, _, _ => by
-    simp [elemsCmds, toksOf_nil, rdKids]
+    simp [kT_nil, rdKids]
   | e :: r, h, first, le0, lt, L, g, F, a, rest, hr, hF => by
     simp only [SimpleTops] at h
     simp only [needAll] at hF
-    rw [toksOf_elems_cons 0 e r first le0 lt g L (SimpleTop.plain e h.1)]
+    rw [kT_cons, rdKids_cons]
     simp only [List.length_cons, List.append_assoc]
     have hstep : topLevel (F + r.length + 1)
-        (itemToks 0 e (startLine (g || gapBefore first le0 lt e) L) ++
-          (toksOf (elemsCmds 0 r false e.loc.endLine e.typeOrder) e.gapEnder (rdItem e (startLine (g || gapBefore first le0 lt e) L)).2 ++ rest)) a =
-        topLevel (F + r.length) (toksOf (elemsCmds 0 r false e.loc.endLine e.typeOrder) e.gapEnder
-          (rdItem e (startLine (g || gapBefore first le0 lt e) L)).2 ++ rest)
-          { a with items := a.items ++ [(rdItem e (startLine (g || gapBefore first le0 lt e) L)).1] } := by
+        (hd e.loc.leading (itemToks 0 e (kidS e first le0 lt L g)) ++
+          (kT 0 r false e.loc.endLine e.typeOrder e.gapEnder (rdItem e (kidS e first le0 lt L g)).2 ++ rest)) a =
+        topLevel (F + r.length) (kT 0 r false e.loc.endLine e.typeOrder e.gapEnder
+          (rdItem e (kidS e first le0 lt L g)).2 ++ rest)
+          { a with items := a.items ++ [(rdItem e (kidS e first le0 lt L g)).1.withLead e.loc.leading] } := by
       rcases h.1 with hs | hs
-      · exact top_item e hs.1 hs.2 _ (F + r.length) a _ (trailOf_toksOf _ _ _ _ hr) (by omega)
-      · exact top_service e hs _ (F + r.length) a _ (trailOf_toksOf _ _ _ _ hr) (by omega)
-    rw [← Nat.add_assoc, hstep, top_tops r h.2 false _ _ _ _ F _ rest hr (by omega)]
-    simp only [rdKids, List.append_assoc, List.cons_append, List.nil_append, startLine, gapBefore]
-    rfl
-
-
-theorem simpleTops_noCh {x : Char} (hx : Safe x) : ∀ (es : List Item) (first : Bool) (le0 lt : Nat), SimpleTops es →
-    CmdsNoCh x (elemsCmds 0 es first le0 lt)
-  | [], _, _, _, _ => by intro c hc; simp [elemsCmds] at hc
-  | e :: r, first, le0, lt, h => by
-    simp only [SimpleTops] at h
-    rw [elemsCmds_cons_unloc 0 e r first le0 lt]
-    refine CmdsNoCh.append (CmdsNoCh.append (cmdsNoCh_gapIf x _) ?_) (simpleTops_noCh hx r false e.loc.endLine e.typeOrder h.2)
-    rcases h.1 with hs | hs
-    · exact simpleItem_noCh hx e 0 hs.1
-    · exact simpleService_noCh hx e 0 hs
+      · exact top_item e hs.1 hs.2 _ (F + r.length) _ a _ (trailOf_kT _ _ _ _ _ _ _ _ hr) (by omega)
+      · exact top_service e hs _ (F + r.length) _ a _ (trailOf_kT _ _ _ _ _ _ _ _ hr) (by omega)
+    rw [← Nat.add_assoc, hstep, top_tops r h.2.2 false _ _ _ _ F _ rest hr (by omega)]
+    simp only [List.append_assoc, List.cons_append, List.nil_append]
 
 end J5V.Print.Reparse
